@@ -70,7 +70,7 @@ def render(sid, cols, rng_, clauses):
 def decode_dods(body, kinds_by_name):
     """independent decoder for a flat sequence of Int32/Float64/String columns"""
     head, data = body.split(b"Data:\n", 1)
-    cols = re.findall(r"\b(Int32|Float64|String|Int16|UInt16|UInt32|Float32|Byte)\s+(\w+);", head.decode("ascii"))
+    cols = re.findall(r"\b(Int32|Float64|String|Int16|UInt16|UInt32|Float32|Byte)\s+([^\s;]+);", head.decode("ascii"))
     out, pos = [], 0
     while data[pos:pos + 4] == b"\x5a\x00\x00\x00":
         pos += 4
